@@ -242,7 +242,7 @@ void vf_harness(void) { const char* s; int n; decodeBase64(s, n); VF_CANARY(); }
 b64_group = Unit(
     'decodeBase64_group', 'C15',
     cuts=[Cut('inv', U, r'^static const byte base64_chars_inv\[\] =', kind='stmt'),
-          Cut('blk', U, r'\t\tif \(i == 4\)\s*\{((?:.|\n)*?)\n\t\t\}\n\t\}\n\tresult\.resize', kind='expr')],
+          Cut('blk', U, r'^\t\tif \(i == 4\)\s*$', kind='body')],
     text=r'''
 #include "vf_base.h"
 #include "b64.h"
@@ -253,8 +253,7 @@ void vf_harness(void) {
   byte d[3] = { a, b, c }; int n = 3 - npad;                       /* a final group may carry 1 or 2 bytes (RFC 4648 padding) */
   byte k[4]; byte out[3]; byte* dest = out; int i = 4;
   for (int j = 0; j < 4; j++) k[j] = base64_chars_inv[(byte)SPEC_B64(d, n, j)];   /* what the loop stores for the 4 characters of the group */
-  {@@blk@@
-  }
+  @@blk@@
   __CPROVER_assert(out[0] == a && (n < 2 || out[1] == b) && (n < 3 || out[2] == c), "decoding the RFC 4648 encoding of a group returns its bytes (the padded ones are cut off by the caller)");
   __CPROVER_assert(dest == out + 3 && i == 0, "a group produces 3 bytes");
   VF_CANARY();
